@@ -26,6 +26,16 @@ type FuncFacts struct {
 	// dominates — the path is known to have come through the predecessor in which they held — even
 	// though the block that computed the condition does not dominate
 	via map[ssa.Value][]*ssa.BasicBlock
+	// impl: at a merge block the predecessors may disagree on a discriminating condition (`q == -1` holds on the
+	// edges from one group, not on the others); the facts common to one group then hold wherever that polarity of the
+	// discriminator is established again below the merge (conditioned merge, see computeImpl)
+	impl map[*ssa.BasicBlock][]factImpl
+}
+
+type factImpl struct {
+	key   string
+	pol   bool
+	facts FactSet
 }
 
 var factsCache = map[*ssa.Function]*FuncFacts{}
@@ -41,6 +51,15 @@ func FactsOf(fn *ssa.Function) *FuncFacts {
 	}
 	// nil entry in map = TOP (not yet computed)
 	ff.In[fn.Blocks[0]] = FactSet{}
+	ff.fixpoint()
+	if ff.computeImpl() {
+		ff.fixpoint()
+	}
+	return ff
+}
+
+func (ff *FuncFacts) fixpoint() {
+	fn := ff.Fn
 	changed := true
 	for iter := 0; changed && iter < 1000; iter++ {
 		changed = false
@@ -61,7 +80,7 @@ func FactsOf(fn *ssa.Function) *FuncFacts {
 					if deadEdge(p, b) {
 						continue // edge of an If on a constant condition that is never taken
 					}
-					out := edgeFacts(pin, p, b)
+					out := ff.edge(pin, p, b)
 					if first {
 						in = out
 						first = false
@@ -92,7 +111,161 @@ func FactsOf(fn *ssa.Function) *FuncFacts {
 			}
 		}
 	}
-	return ff
+}
+
+// normCond gives a comparison with a constant (or a negation chain over one) a key that is the same for every
+// evaluation of the same comparison on the same value; pol is the polarity under which `value == constant` holds.
+func normCond(c ssa.Value, pol bool) (string, bool) {
+	for {
+		if u, ok := c.(*ssa.UnOp); ok && u.Op == token.NOT {
+			c, pol = u.X, !pol
+			continue
+		}
+		break
+	}
+	if v, op, k, ok := cmpWithConstInt(c); ok && (op == token.EQL || op == token.NEQ) {
+		if op == token.NEQ {
+			pol = !pol
+		}
+		return fmt.Sprintf("%p==%d", stripConv(v), k), pol
+	}
+	return fmt.Sprintf("%p", c), pol
+}
+
+func stableAt(c ssa.Value, b *ssa.BasicBlock) bool {
+	if pureOverDominating(c, b) {
+		return true
+	}
+	if ins, ok := c.(ssa.Instruction); ok {
+		return ins.Block() != b && ins.Block() != nil && ins.Block().Dominates(b)
+	}
+	return false
+}
+
+// computeImpl: for every merge block, a discriminator decided on every incoming edge with both polarities present
+// splits the predecessors in two groups; what all edges of one group agree on is recorded as implied by that polarity.
+// Only facts and discriminators that are stable at the merge (pure over dominating values) are kept.
+func (ff *FuncFacts) computeImpl() bool {
+	any := false
+	for _, b := range ff.Fn.Blocks {
+		var outs []FactSet
+		for _, p := range b.Preds {
+			pin, ok := ff.In[p]
+			if !ok || deadEdge(p, b) {
+				continue
+			}
+			outs = append(outs, edgeFacts(pin, p, b))
+		}
+		if len(outs) < 2 {
+			continue
+		}
+		type dec struct {
+			pol  bool
+			conf bool
+		}
+		norm := make([]map[string]dec, len(outs))
+		for i, o := range outs {
+			norm[i] = map[string]dec{}
+			for c, v := range o {
+				if !stableAt(c, b) {
+					continue
+				}
+				k, pol := normCond(c, v)
+				if d, seen := norm[i][k]; seen && d.pol != pol {
+					norm[i][k] = dec{conf: true}
+				} else if !seen {
+					norm[i][k] = dec{pol: pol}
+				}
+			}
+		}
+		for k := range norm[0] {
+			var T, F []int
+			decided := true
+			for i := range outs {
+				d, ok := norm[i][k]
+				if !ok || d.conf {
+					decided = false
+					break
+				}
+				if d.pol {
+					T = append(T, i)
+				} else {
+					F = append(F, i)
+				}
+			}
+			if !decided || len(T) == 0 || len(F) == 0 {
+				continue
+			}
+			for _, grp := range []struct {
+				pol bool
+				ix  []int
+			}{{true, T}, {false, F}} {
+				common := outs[grp.ix[0]]
+				for _, i := range grp.ix[1:] {
+					common = intersect(common, outs[i])
+				}
+				keep := FactSet{}
+				for c, v := range common {
+					if w, have := ff.In[b][c]; have && w == v {
+						continue
+					}
+					if kk, _ := normCond(c, v); kk == k {
+						continue
+					}
+					if stableAt(c, b) {
+						keep[c] = v
+					}
+				}
+				if len(keep) > 0 {
+					if ff.impl == nil {
+						ff.impl = map[*ssa.BasicBlock][]factImpl{}
+					}
+					ff.impl[b] = append(ff.impl[b], factImpl{key: k, pol: grp.pol, facts: keep})
+					any = true
+				}
+			}
+		}
+	}
+	return any
+}
+
+// edge is edgeFacts plus the implications of the merge blocks dominating p whose discriminator is decided on the edge.
+func (ff *FuncFacts) edge(pin FactSet, p, s *ssa.BasicBlock) FactSet {
+	out := edgeFacts(pin, p, s)
+	if len(ff.impl) == 0 {
+		return out
+	}
+	var norm map[string]bool
+	for d := p; d != nil; d = d.Idom() {
+		ims := ff.impl[d]
+		if len(ims) == 0 {
+			continue
+		}
+		if norm == nil {
+			norm = map[string]bool{}
+			conf := map[string]bool{}
+			for c, v := range out {
+				k, pol := normCond(c, v)
+				if w, seen := norm[k]; seen && w != pol {
+					conf[k] = true
+				}
+				norm[k] = pol
+			}
+			for k := range conf {
+				delete(norm, k)
+			}
+		}
+		for _, im := range ims {
+			if pol, ok := norm[im.key]; ok && pol == im.pol {
+				for c, v := range im.facts {
+					if _, have := out[c]; !have {
+						out[c] = v
+					}
+				}
+			}
+		}
+	}
+	return out
 }
 
 // deadEdge: p ends in an If on a boolean constant and s is the successor that is never taken.
@@ -323,7 +496,7 @@ func (ff *FuncFacts) OnEdge(p, s *ssa.BasicBlock) FactSet {
 	if pin == nil {
 		pin = FactSet{}
 	}
-	return edgeFacts(pin, p, s)
+	return ff.edge(pin, p, s)
 }
 
 // ---- interpreting facts ------------------------------------------------------------------------------
